@@ -352,8 +352,9 @@ class Job(Resource):
         logger.debug("Job %s: unsatisfied %d", self, self.unsatisfied)
 
         if status == DependencyStatus.FAIL:
-            # Job completed
-            if not self.state.finished():
+            # Job completed (a job whose process is already running keeps
+            # its state: the outcome of the process decides)
+            if self.state.notstarted():
                 self.state = JobState.ERROR
                 self.failure_status = JobFailureStatus.DEPENDENCY
                 self._readyEvent.set()
